@@ -2,7 +2,10 @@ package rules
 
 import (
 	"fmt"
+	"go/constant"
 	"go/token"
+	"go/types"
+	"strings"
 
 	"gojaverif/core"
 
@@ -299,6 +302,70 @@ func runLatch(p *core.Prog) *core.Result {
 			}
 		}
 	}
+	// combinator element handlers: the "already called" latch of one input is shared by all handlers
+	// created for that input. A handler closure H with a captured bool latch (H stores true into it)
+	// that is created by a factory closure P which is called more than once per input must capture
+	// the latch from outside P; a latch allocated inside P is private to each handler.
+	{
+		n := 0
+		for _, h := range p.Funcs {
+			if !p.InModule(h) || h.Parent() == nil || h.Pkg == nil || h.Pkg.Pkg.Path() != core.GojaPath {
+				continue
+			}
+			if !strings.Contains(p.Pos(h.Pos()), "builtin_promise.go") {
+				continue
+			}
+			for fi, fv := range h.FreeVars {
+				pt, ok := fv.Type().Underlying().(*types.Pointer)
+				if !ok {
+					continue
+				}
+				if b, ok := pt.Elem().Underlying().(*types.Basic); !ok || b.Kind() != types.Bool {
+					continue
+				}
+				latch := false
+				for _, r := range core.Referrers(fv) {
+					if st, ok := r.(*ssa.Store); ok && st.Addr == ssa.Value(fv) {
+						if c, ok := st.Val.(*ssa.Const); ok && c.Value != nil && c.Value.Kind() == constant.Bool && constant.BoolVal(c.Value) {
+							latch = true
+						}
+					}
+				}
+				if !latch {
+					continue
+				}
+				par := h.Parent()
+				var binding ssa.Value
+				core.AllInstrs(par, func(in ssa.Instruction) {
+					if mc, ok := in.(*ssa.MakeClosure); ok && mc.Fn == h && fi < len(mc.Bindings) {
+						binding = mc.Bindings[fi]
+					}
+				})
+				if binding == nil {
+					continue
+				}
+				n++
+				key := fmt.Sprintf("%s:latch %s shared per input", core.FuncName(h), fv.Name())
+				al, local := binding.(*ssa.Alloc)
+				calls := 0
+				if local && par.Parent() != nil {
+					core.AllInstrs(par.Parent(), func(in ssa.Instruction) {
+						if c, ok := in.(ssa.CallInstruction); ok {
+							if mc, ok := core.Origin(c.Common().Value).(*ssa.MakeClosure); ok && mc.Fn == par {
+								calls++
+							}
+						}
+					})
+				}
+				if local && calls >= 2 {
+					res.Bad(key, p.Pos(al.Pos()), fmt.Sprintf("the latch is allocated inside the factory %s, which is called %d times for the same input (fulfil and reject handler): the two handlers no longer exclude each other, so a thenable that calls both callbacks is counted twice and the combinator settles early with a truncated result", core.FuncName(par), calls))
+				} else {
+					res.OK(key, p.Pos(h.Pos()), "one latch cell per input element")
+				}
+			}
+		}
+		res.Count("element_latches", n)
+	}
 	return res
 }
 
@@ -336,7 +403,9 @@ func runTracker(p *core.Prog) *core.Result {
 		return "?"
 	}
 	rejOp, hdlOp := "", ""
-	if c, ok := p.Goja.Types.Scope().Lookup("PromiseRejectionReject").(interface{ Val() interface{ String() string } }); ok {
+	if c, ok := p.Goja.Types.Scope().Lookup("PromiseRejectionReject").(interface {
+		Val() interface{ String() string }
+	}); ok {
 		_ = c
 	}
 	for _, f := range p.Funcs {
